@@ -29,7 +29,9 @@ import (
 	"os"
 	"path/filepath"
 	"reflect"
+	"regexp"
 	"sort"
+	"strconv"
 	"strings"
 	"time"
 	"unicode/utf8"
@@ -575,10 +577,12 @@ func writeDoc(cfg *v2.MOSNConfig) []byte {
 	if err != nil {
 		return nil
 	}
+	b = respellDurations(b)
 	for _, p := range todo {
 		os.RemoveAll(p.dir)
 		os.MkdirAll(p.dir, 0o755)
 		for i, fb := range p.files {
+			fb = respellDurations(fb)
 			ioutil.WriteFile(filepath.Join(p.dir, fmt.Sprintf("item%d.json", i)), fb, 0o644)
 		}
 	}
@@ -761,6 +765,8 @@ func c19(args []string) int {
 		}()})
 	}
 	nGen := run.N(120, 2500)
+	respellRng = r
+	defer func() { respellRng = nil }()
 	for i := 0; i < nGen; i++ {
 		f := &filler{r: r, maxDepth: 9, tmp: tmp, dirPct: 30, noTLS: false}
 		b := genConfig(f, r, tmp, i)
@@ -771,6 +777,10 @@ func c19(args []string) int {
 		p := filepath.Join(tmp, fmt.Sprintf("gen%d.json", i))
 		ioutil.WriteFile(p, b, 0o644)
 		check("generated", fmt.Sprintf("gen%d", i), p, map[string]interface{}{"seed": run.Seed, "index": i, "document": json.RawMessage(b)})
+	}
+	respellRng = nil
+	for k, v := range respellCount {
+		run.Sum.Distribution[k] += v
 	}
 	// ---------------- correspondence: the model of Marshal / Unmarshal against encoding/json on the real types
 	custom := map[reflect.Type]bool{}
@@ -1085,6 +1095,42 @@ func c19(args []string) int {
 		}
 	}
 	run.Sum.Distribution["coder:duration-checked"] = len(durs)
+	// ... and the MODEL of Duration.String / ParseDuration (theorem c19_duration_coder is about these two functions)
+	// against the real ones: the printed text of each value, the parse of that text, of other accepted spellings and of
+	// texts ParseDuration rejects.  Only texts in the model's domain: no overflowing numbers, at most as many fraction
+	// digits as the unit has decimal places below it (the float computation of the fraction is exact there).
+	durTexts := map[string]bool{}
+	for i, d := range append(append([]time.Duration{}, durationValues...), durs...) {
+		if i > 160 && run.Tier != "thorough" {
+			break
+		}
+		add(fmt.Sprintf("(DurFmt (%d)%%Z %s)", int64(d), coqStr(d.String())), map[string]interface{}{"kind": "duration-print", "nanos": int64(d)})
+		durTexts[d.String()] = true
+		if d >= 0 {
+			for _, sp := range durationSpellings(d) {
+				durTexts[sp] = true
+			}
+		}
+	}
+	for _, t := range []string{"", "0", "-0", "+0", "5", "s", "1x", "--1s", "+5s", ".5s", "1.s", ".s", "1..s", "1.5.5s", "1.5h", "0.25m", "1h0m0.000001s",
+		"1us", "1\u00b5s", "1\u03bcs", "1 s", "1S", "10m10", "1h-1m", "0.5ms", "0.000001s", "01s", "1.0s", "1d"} {
+		if u, err := strconv.Unquote("\"" + t + "\""); err == nil {
+			durTexts[u] = true
+		}
+	}
+	var texts []string
+	for t := range durTexts {
+		texts = append(texts, t)
+	}
+	sort.Strings(texts)
+	for _, t := range texts {
+		res := "None"
+		if d, err := time.ParseDuration(t); err == nil {
+			res = fmt.Sprintf("(Some (%d)%%Z)", int64(d))
+		}
+		add(fmt.Sprintf("(DurCase %s %s)", coqStr(t), res), map[string]interface{}{"kind": "duration-parse", "text": t})
+	}
+	run.Sum.Distribution["model:duration-text-case"] = len(texts)
 	sh.Close()
 	// (d) the effective-config state machine
 	effHistories(run, r, tmp, custom)
@@ -1773,4 +1819,99 @@ func hostVariation(run *Run, r *Rng, newShard func() *Shard, pv func(reflect.Val
 			sh = newShard()
 		}
 	}
+}
+
+// ---------------------------------------------------------------------------------------------------------------
+// duration values of the INPUT documents.  The documents are produced with the real marshalers, so whatever those do to a
+// duration would already be in the input; the values are therefore set in the JSON text afterwards: every string member
+// that is a printed duration (every duration-typed field of the graph prints one, "0s" when unset) is now and then
+// replaced by one of durationValues, in the spelling of Duration.String or in another spelling ParseDuration accepts.
+
+var respellRng *Rng
+var respellCount = map[string]int{}
+
+var durationTextRe = regexp.MustCompile(`^([0-9]+(\.[0-9]+)?(ns|us|µs|ms|s|m|h))+$`)
+
+func durationSpellings(d time.Duration) []string {
+	out := []string{d.String()}
+	if d > 0 && d < time.Second && d%time.Microsecond == 0 {
+		out = append(out, strconv.FormatFloat(float64(d)/1e6, 'f', -1, 64)+"ms") // 0.5ms, 0.2ms, 0.999ms, 1.5ms
+		out = append(out, strconv.FormatInt(int64(d/time.Microsecond), 10)+"us")
+	}
+	if d >= time.Second && d%time.Millisecond == 0 && d < 1000*time.Hour {
+		out = append(out, strconv.FormatInt(int64(d/time.Millisecond), 10)+"ms")
+	}
+	if d > 0 && d < time.Hour {
+		out = append(out, "0h0m"+strconv.FormatFloat(float64(d)/1e9, 'f', 9, 64)+"s") // 0h0m0.000200000s
+	}
+	if d >= time.Hour && d%time.Minute == 0 && d < 1000*time.Hour {
+		out = append(out, strconv.FormatInt(int64(d/time.Minute), 10)+"m")
+	}
+	var ok []string
+	for _, s := range out {
+		if back, err := time.ParseDuration(s); err == nil && back == d {
+			ok = append(ok, s)
+		}
+	}
+	return ok
+}
+
+func respellDurations(doc []byte) []byte {
+	r := respellRng
+	if r == nil {
+		return doc
+	}
+	dec := json.NewDecoder(bytes.NewReader(doc))
+	dec.UseNumber()
+	var x interface{}
+	if dec.Decode(&x) != nil {
+		return doc
+	}
+	changed := false
+	var walk func(x interface{}) interface{}
+	walk = func(x interface{}) interface{} {
+		switch t := x.(type) {
+		case map[string]interface{}:
+			for k, e := range t {
+				t[k] = walk(e)
+			}
+		case []interface{}:
+			for i, e := range t {
+				t[i] = walk(e)
+			}
+		case string:
+			if durationTextRe.MatchString(t) && r.Pct(45) {
+				sp := durationSpellings(append(durationValues, time.Hour+time.Microsecond)[r.Intn(len(durationValues)+1)])
+				if len(sp) > 0 {
+					changed = true
+					pick := sp[r.Intn(len(sp))]
+					d, _ := time.ParseDuration(pick)
+					cls := "duration-input:>=1ms"
+					switch {
+					case d == 0:
+						cls = "duration-input:0"
+					case d < 500*time.Microsecond:
+						cls = "duration-input:<500us"
+					case d < time.Millisecond:
+						cls = "duration-input:500us..1ms"
+					}
+					respellCount[cls]++
+					if pick != d.String() {
+						respellCount["duration-input:other-spelling"]++
+					}
+					return pick
+				}
+			}
+		}
+		return x
+	}
+	x = walk(x)
+	if !changed {
+		return doc
+	}
+	out, err := json.MarshalIndent(x, "", " ")
+	if err != nil {
+		return doc
+	}
+	return out
 }
